@@ -1,5 +1,586 @@
-"""C02.4 table / enum lookups (filled in below)."""
+"""C02.4 table / enum lookups keyed by bitstream values.
+
+Every `TABLE[key]` on an upper-case module-level table and every enumeration
+constructor call `Enum(value)` in the validator's reach (module-level functions
+and the exception classes' reporting methods) must be unable to raise KeyError /
+ValueError for any stream.  A site is discharged by one of
+
+  handled     an enclosing try catches the class the lookup may raise;
+  guarded     a dominating `if key not in TABLE: raise` with the same key, in
+              the function itself or immediately before every call of it;
+  validated   every possible provenance of the key is a value validated against
+              an enumeration E (assert_in_enum on the value itself dominating the
+              use, an enum constructor's result, getattr(Enum, name), a constant
+              member) and every member of E is a key of the table;
+  closed      the key is a column of a data-table row whose every value is a
+              key of the table (closure of the data tables, checked from CSV /
+              literal tables).
+
+Provenance is a *set* of atoms, followed through locals, parameters (every call
+site in the reach, including `map(f, xs)`), state keys (store-pairing: every
+store of state[k] is immediately followed by assert_in_enum(state[k], E, ...)
+or copies an already validated key), exception attributes (constructor argument
+at every direct raise, and at dynamic `raise exception_type(...)` in a helper
+that receives the class), and list elements (appended values).  A `None` atom
+is dropped where the use is under an `is not None` test of the same name.
+"""
+import ast
+import os
+
+from ..core import AnalysisError, const_str, dotted, norm, short, subscript_key
+from ..mustflow import MustFlow
+
+FAIL = "fail"
+
+
+class Lookups(object):
+    def __init__(self, repo, reach):
+        self.repo = repo
+        self.ext = repo.ext
+        self.funcs = {}  # (modname, qualname) -> (module, fn)
+        for q in reach:
+            modn, fname = q.split(":")
+            m = repo.modules.get(modn)
+            if m is None:
+                continue
+            if "." in fname:
+                cn, mn = fname.split(".", 1)
+                cls = m.classes.get(cn)
+                if cls is not None and "." not in mn:
+                    for f in cls.body:
+                        if isinstance(f, ast.FunctionDef) and f.name == mn:
+                            self.funcs[(modn, fname)] = (m, f)
+                continue
+            fn = m.funcs.get(fname)
+            if fn is not None:
+                self.funcs[(modn, fname)] = (m, fn)
+        self._state_valid = None
+        self._callers = None
+        self._maps = None
+
+    # ---- tables -------------------------------------------------------------
+    def enum_of_member(self, d):
+        if d and "." in d:
+            e, mem = d.rsplit(".", 1)
+            e = e.split(".")[-1]
+            if e in self.ext.enums and mem in self.ext.enums[e]:
+                return e, self.ext.enums[e][mem]
+        return None
+
+    def table_keys(self, m, name):
+        tgt = self.repo.resolve(m.name, name)
+        if tgt is None:
+            return None
+        if getattr(tgt, "kind", None) == "external":
+            t = tgt.name
+            if t in self.ext.lookups:
+                return set(self.ext.lookups[t]["rows"].keys())
+            if t in self.ext.literal_tables:
+                return self._dict_keys(self.ext.literal_tables[t])
+            if t == "QUANTISATION_MATRICES":
+                return set(self.ext.quant_matrix_keys)
+            return None
+        if getattr(tgt, "kind", None) == "assign":
+            mod = self.repo.mod(tgt.mod)
+            vals = mod.assigns.get(tgt.name, [])
+            if len(vals) == 1 and isinstance(vals[0], ast.Dict):
+                return self._dict_keys(vals[0])
+            if len(vals) == 1 and isinstance(vals[0], ast.Call) and dotted(vals[0].func) == "read_lookup_from_csv":
+                return self._csv_lookup_keys(mod, vals[0])
+        return None
+
+    def _dict_keys(self, d):
+        out = set()
+        for k in d.keys:
+            em = self.enum_of_member(dotted(k))
+            if em is not None:
+                out.add(em[1])
+            elif isinstance(k, ast.Call) and isinstance(k.func, ast.Name) and k.func.id in self.ext.enums and len(k.args) == 1 and isinstance(k.args[0], ast.Constant):
+                out.add(k.args[0].value)
+            else:
+                try:
+                    out.add(ast.literal_eval(k))
+                except Exception:
+                    return None
+        return out
+
+    def _csv_lookup_keys(self, mod, call):
+        fname = None
+        for x in ast.walk(call.args[0]):
+            if const_str(x) and const_str(x).endswith(".csv"):
+                fname = const_str(x)
+        if fname is None:
+            return None
+        rel = os.path.join(os.path.dirname(mod.rel), fname)
+        try:
+            rows = self.repo.read_csv_rows(rel)
+        except AnalysisError:
+            return None
+        rows = [r for r in rows if any(c.strip() and not c.strip().startswith("#") for c in r)]
+        hdr = None
+        out = set()
+        for r in rows:
+            cells = [c.strip() for c in r]
+            if hdr is None:
+                if "index" in cells:
+                    hdr = cells
+                continue
+            i = hdr.index("index")
+            if len(cells) > i and cells[i].lstrip("-").isdigit():
+                out.add(int(cells[i]))
+        return out if hdr is not None else None
+
+    # ---- call / map sites -----------------------------------------------------
+    def callers(self):
+        if self._callers is None:
+            self._callers, self._maps = {}, {}
+            for (modn, fname), (m, fn) in self.funcs.items():
+                for c in ast.walk(fn):
+                    if isinstance(c, ast.Call) and isinstance(c.func, ast.Name):
+                        tgt = self.repo.resolve(m.name, c.func.id)
+                        if tgt is not None and getattr(tgt, "kind", None) == "func":
+                            self._callers.setdefault((tgt.mod, tgt.name), []).append((m, fn, c))
+                        if c.func.id == "map" and len(c.args) == 2 and isinstance(c.args[0], ast.Name):
+                            t2 = self.repo.resolve(m.name, c.args[0].id)
+                            if t2 is not None and getattr(t2, "kind", None) == "func":
+                                self._maps.setdefault((t2.mod, t2.name), []).append((m, fn, c))
+        return self._callers
+
+    def maps(self):
+        self.callers()
+        return self._maps
+
+    # ---- state keys -----------------------------------------------------------
+    def state_valid(self):
+        if self._state_valid is not None:
+            return self._state_valid
+        stores = {}
+        for (modn, fname), (m, fn) in self.funcs.items():
+            for n in ast.walk(fn):
+                if isinstance(n, ast.Assign) and len(n.targets) == 1:
+                    k = subscript_key(n.targets[0], "state")
+                    if k is not None:
+                        stores.setdefault(k, []).append((m, fn, n))
+        out = {}
+        for _ in range(4):
+            for k, lst in stores.items():
+                enums, probs = set(), []
+                for m, fn, n in lst:
+                    e = self._store_validated(m, fn, n, k, out)
+                    if e is None:
+                        probs.append("%s:%s line %d `%s`" % (m.rel, fn.name, n.lineno, short(n, 50)))
+                    else:
+                        enums.add(e)
+                out[k] = (enums.pop() if len(enums) == 1 and not probs else None, probs if probs else (["validated against several enumerations %s" % sorted(enums)] if len(enums) > 1 else []))
+        self._state_valid = out
+        return out
+
+    def _store_validated(self, m, fn, n, k, known):
+        p = getattr(n, "_parent", None)
+        for field in ("body", "orelse", "finalbody"):
+            blk = getattr(p, field, None)
+            if isinstance(blk, list) and n in blk:
+                i = blk.index(n)
+                if i + 1 < len(blk):
+                    nx = blk[i + 1]
+                    if isinstance(nx, ast.Expr) and isinstance(nx.value, ast.Call) and dotted(nx.value.func) == "assert_in_enum" and len(nx.value.args) >= 2 and subscript_key(nx.value.args[0], "state") == k:
+                        return (dotted(nx.value.args[1]) or "").split(".")[-1]
+        v = n.value
+        k2 = subscript_key(v, "state")
+        if k2 is not None and k2 in known and known[k2][0] is not None:
+            return known[k2][0]
+        em = self.enum_of_member(dotted(v))
+        if em is not None:
+            return em[0]
+        if isinstance(v, ast.Name):
+            e = self.local_valid(fn, v.id, n)
+            if e is not None:
+                return e
+        return None
+
+    # ---- locals ---------------------------------------------------------------
+    def local_valid(self, fn, name, at):
+        """enum E such that assert_in_enum(name, E, ...) has run on every path to
+        the statement containing `at` since the last binding of name"""
+        target_stmt = at
+        while not isinstance(target_stmt, ast.stmt):
+            target_stmt = target_stmt._parent
+        seen = []
+
+        def on(node, st):
+            if node is target_stmt:
+                seen.append(st)
+            if isinstance(node, ast.Call) and dotted(node.func) == "assert_in_enum" and len(node.args) >= 2 and dotted(node.args[0]) == name:
+                return st.add("valid:" + (dotted(node.args[1]) or "?").split(".")[-1])
+            if isinstance(node, (ast.Assign, ast.AugAssign, ast.For)):
+                tg = node.targets if isinstance(node, ast.Assign) else [node.target]
+                for t in tg:
+                    for x in ast.walk(t):
+                        if isinstance(x, ast.Name) and x.id == name:
+                            st = st.drop(*[e for e in st.may if e.startswith("valid:")])
+            return st
+
+        MustFlow(fn, on, node_types=(ast.Call, ast.Assign, ast.AugAssign, ast.For, ast.Expr, ast.Return, ast.If, ast.Raise)).run()
+        if not seen:
+            return None
+        es = None
+        for st in seen:
+            cur = set(e[len("valid:"):] for e in st.must if e.startswith("valid:"))
+            es = cur if es is None else es & cur
+        return sorted(es)[0] if es and len(es) == 1 else None
+
+    @staticmethod
+    def none_excluded(node, name):
+        """the evaluation of `node` happens only when <name> is not None"""
+        c, p = node, getattr(node, "_parent", None)
+        while p is not None and not isinstance(p, (ast.FunctionDef, ast.Lambda)):
+            test = getattr(p, "test", None)
+            if isinstance(p, (ast.If, ast.IfExp)) and isinstance(test, ast.Compare) and len(test.ops) == 1 and dotted(test.left) == name and isinstance(test.comparators[0], ast.Constant) and test.comparators[0].value is None:
+                body = p.body if isinstance(p.body, list) else [p.body]
+                orelse = p.orelse if isinstance(p.orelse, list) else [p.orelse]
+                if isinstance(test.ops[0], ast.IsNot) and any(c is b for b in body):
+                    return True
+                if isinstance(test.ops[0], ast.Is) and any(c is b for b in orelse):
+                    return True
+            c, p = p, getattr(p, "_parent", None)
+        return False
+
+    # ---- provenance -----------------------------------------------------------
+    def prov(self, m, fn, e, at, elems=False, depth=0):
+        """set of atoms: ('enum', E) ('const', v) ('closed', table, col) ('lifts',) ('fail', why)"""
+        if depth > 7:
+            return {(FAIL, "call chain too deep")}
+        if isinstance(e, ast.Constant):
+            return {("const", e.value)}
+        em = self.enum_of_member(dotted(e))
+        if em is not None:
+            return {("const", em[1])}
+        if isinstance(e, (ast.List, ast.Tuple)) and elems:
+            out = set()
+            for x in e.elts:
+                out |= self.prov(m, fn, x, at, False, depth + 1)
+            return out
+        if isinstance(e, ast.Call) and isinstance(e.func, ast.Name) and e.func.id in self.ext.enums and len(e.args) == 1:
+            return {("enum", e.func.id)}
+        if isinstance(e, ast.Call) and dotted(e.func) == "getattr" and len(e.args) == 2 and isinstance(e.args[0], ast.Name) and e.args[0].id in self.ext.enums:
+            return {("enum", e.args[0].id)}
+        k = subscript_key(e, "state")
+        if k is not None:
+            en, probs = self.state_valid().get(k, (None, ["state[%r] is never stored in the validator's reach" % k]))
+            if en is not None:
+                return {("enum", en)}
+            return {(FAIL, "state[%r] is not validated at every store: %s" % (k, "; ".join(probs[:2])))}
+        # self.level_constrained_values['level']
+        if isinstance(e, ast.Subscript) and const_str(e.slice) == "level" and isinstance(e.value, ast.Attribute) and dotted(e.value.value) == "self" and e.value.attr == "level_constrained_values":
+            return self.recorded_level()
+        if isinstance(e, ast.Attribute) and isinstance(e.value, ast.Name) and e.value.id == "self":
+            return self.exception_attr(fn, e.attr, elems, depth)
+        if isinstance(e, ast.Attribute) and isinstance(e.value, ast.Name):
+            base = e.value.id
+            ds = [a for a in ast.walk(fn) if isinstance(a, ast.Assign) and any(isinstance(t, ast.Name) and t.id == base for t in a.targets)]
+            if len(ds) == 1 and isinstance(ds[0].value, ast.Subscript) and dotted(ds[0].value.value) and dotted(ds[0].value.value).isupper():
+                return {("closed", dotted(ds[0].value.value), e.attr)}
+            for n in ast.walk(fn):
+                if isinstance(n, ast.For) and isinstance(n.target, ast.Name) and n.target.id == base and isinstance(n.iter, ast.Attribute) and n.iter.attr == "stages" and isinstance(n.iter.value, ast.Name):
+                    rs = [a for a in ast.walk(fn) if isinstance(a, ast.Assign) and any(isinstance(t, ast.Name) and t.id == n.iter.value.id for t in a.targets)]
+                    if len(rs) == 1 and isinstance(rs[0].value, ast.Subscript) and dotted(rs[0].value.value) == "LIFTING_FILTERS" and e.attr == "lift_type":
+                        return {("lifts",)}
+            return {(FAIL, "attribute %s of an unrecognised object" % norm(e))}
+        if isinstance(e, ast.Name):
+            return self.prov_name(m, fn, e, at, elems, depth)
+        return {(FAIL, "key expression `%s` not understood" % short(e, 40))}
+
+    def prov_name(self, m, fn, e, at, elems, depth):
+        name = e.id
+        if not elems:
+            lv = self.local_valid(fn, name, at)
+            if lv is not None:
+                return {("enum", lv)}
+        at_stmt = at
+        while not isinstance(at_stmt, ast.stmt):
+            at_stmt = at_stmt._parent
+        own = set(id(x) for x in ast.walk(at_stmt))
+        out = set()
+        params = [a.arg for a in fn.args.args]
+        stores = [x for x in ast.walk(fn) if isinstance(x, ast.Name) and x.id == name and isinstance(x.ctx, ast.Store) and id(x) not in own]
+        defs = []
+        for a in ast.walk(fn):
+            if isinstance(a, ast.Assign) and id(a) not in own and any(isinstance(t, ast.Name) and t.id == name for t in a.targets):
+                defs.append(a.value)
+            if isinstance(a, ast.For) and isinstance(a.target, ast.Name) and a.target.id == name:
+                out |= self.prov(m, fn, a.iter, at, True, depth + 1)
+        # a store in the site's own statement (x = Enum(x)) does not affect the value used there
+        is_param_value = name in params and not [s for s in stores if s.lineno < at_stmt.lineno]
+        if is_param_value:
+            out |= self.prov_param(m, fn, name, params.index(name), elems, depth)
+        elif name in params and not defs and not out:
+            out |= self.prov_param(m, fn, name, params.index(name), elems, depth)
+        else:
+            for d in defs:
+                if elems and isinstance(d, (ast.List, ast.Tuple)):
+                    out |= self.prov(m, fn, d, at, True, depth + 1)
+                else:
+                    out |= self.prov(m, fn, d, at, elems, depth + 1)
+        if elems:
+            for c in ast.walk(fn):
+                if isinstance(c, ast.Call) and isinstance(c.func, ast.Attribute) and c.func.attr == "append" and dotted(c.func.value) == name and c.args:
+                    out |= self.prov(m, fn, c.args[0], c, False, depth + 1)
+        if not out:
+            return {(FAIL, "local %s has no recognised definition" % name)}
+        return out
+
+    def prov_param(self, m, fn, name, index, elems, depth):
+        qual = fn.name
+        cls = getattr(fn, "_parent", None)
+        sites = list(self.callers().get((m.name, qual), [])) if not isinstance(cls, ast.ClassDef) else []
+        msites = list(self.maps().get((m.name, qual), [])) if not isinstance(cls, ast.ClassDef) and index == 0 else []
+        if not sites and not msites:
+            return {(FAIL, "no call site of %s in the validator's reach" % qual)}
+        out = set()
+        for cm, cf, call in sites:
+            arg = call.args[index] if index < len(call.args) and not any(isinstance(a, ast.Starred) for a in call.args[: index + 1]) else next((kw.value for kw in call.keywords if kw.arg == name), None)
+            if arg is None:
+                out.add((FAIL, "call of %s in %s does not pass %s explicitly" % (qual, cf.name, name)))
+                continue
+            r = self.prov(cm, cf, arg, call, elems, depth + 1)
+            if isinstance(arg, ast.Name) and self.none_excluded(call, arg.id):
+                r = set(a for a in r if a != ("const", None))
+            out |= set((FAIL, "via %s: %s" % (cf.name, a[1])) if a[0] == FAIL else a for a in r)
+        for cm, cf, call in msites:
+            arg = call.args[1]
+            r = self.prov(cm, cf, arg, call, True, depth + 1)
+            if isinstance(arg, ast.Name) and self.none_excluded(call, arg.id):
+                r = set(a for a in r if a != ("const", None))
+            out |= set((FAIL, "via map in %s: %s" % (cf.name, a[1])) if a[0] == FAIL else a for a in r)
+        return out
+
+    def recorded_level(self):
+        """value recorded under 'level' in state['_level_constrained_values']"""
+        out = set()
+        found = False
+        for (modn, fname), (m, fn) in self.funcs.items():
+            for c in ast.walk(fn):
+                if isinstance(c, ast.Call) and dotted(c.func) == "assert_level_constraint" and len(c.args) == 3 and const_str(c.args[1]) == "level":
+                    found = True
+                    out |= self.prov(m, fn, c.args[2], c, False, 1)
+        if not found:
+            return {(FAIL, "no assert_level_constraint(state, 'level', ...) in the validator's reach")}
+        return out
+
+    def exception_attr(self, fn, attr, elems, depth):
+        cls = getattr(fn, "_parent", None)
+        if not isinstance(cls, ast.ClassDef):
+            return {(FAIL, "self.%s outside a class" % attr)}
+        init = None
+        for f in cls.body:
+            if isinstance(f, ast.FunctionDef) and f.name == "__init__":
+                init = f
+        if init is None:
+            return {(FAIL, "%s has no __init__ of its own" % cls.name)}
+        params = [a.arg for a in init.args.args[1:]]
+        src = [a for a in ast.walk(init) if isinstance(a, ast.Assign) and any(isinstance(t, ast.Attribute) and t.attr == attr and dotted(t.value) == "self" for t in a.targets)]
+        if len(src) != 1 or not isinstance(src[0].value, ast.Name) or src[0].value.id not in params:
+            return {(FAIL, "%s.%s is not a plain copy of a constructor argument" % (cls.name, attr))}
+        i = params.index(src[0].value.id)
+        out = set()
+        n_sites = 0
+        for (modn, fname), (rm, rf) in self.funcs.items():
+            for r in ast.walk(rf):
+                # direct raise
+                if isinstance(r, ast.Raise) and isinstance(r.exc, ast.Call) and (dotted(r.exc.func) or "").split(".")[-1] == cls.name:
+                    n_sites += 1
+                    out |= self._ctor_arg(rm, rf, r.exc, i, elems, depth, None, None)
+                # the class handed to a helper that raises it
+                if isinstance(r, ast.Call) and isinstance(r.func, ast.Name) and any(isinstance(a, ast.Name) and a.id == cls.name for a in r.args):
+                    tgt = self.repo.resolve(rm.name, r.func.id)
+                    if tgt is None or getattr(tgt, "kind", None) != "func":
+                        continue
+                    g = tgt.node
+                    gm = self.repo.mod(tgt.mod)
+                    gparams = [a.arg for a in g.args.args]
+                    j = [k for k, a in enumerate(r.args) if isinstance(a, ast.Name) and a.id == cls.name][0]
+                    if j >= len(gparams):
+                        out.add((FAIL, "%s is passed to %s in its *args" % (cls.name, g.name)))
+                        continue
+                    pexc = gparams[j]
+                    for rr in ast.walk(g):
+                        if isinstance(rr, ast.Raise) and isinstance(rr.exc, ast.Call) and dotted(rr.exc.func) == pexc:
+                            n_sites += 1
+                            out |= self._ctor_arg(gm, g, rr.exc, i, elems, depth, (rm, rf, r), gparams)
+        if n_sites == 0:
+            return {(FAIL, "no raise of %s found in the validator's reach" % cls.name)}
+        return out
+
+    def _ctor_arg(self, rm, rf, call, i, elems, depth, outer, gparams):
+        args = list(call.args)
+        if len(args) == 1 and isinstance(args[0], ast.Starred) and isinstance(args[0].value, ast.Name) and outer is None:
+            ds = [a for a in ast.walk(rf) if isinstance(a, ast.Assign) and any(isinstance(t, ast.Name) and t.id == args[0].value.id for t in a.targets)]
+            if len(ds) == 1 and isinstance(ds[0].value, ast.Tuple):
+                args = list(ds[0].value.elts)
+        pos = [a for a in args if not isinstance(a, ast.Starred)]
+        star = [a for a in args if isinstance(a, ast.Starred)]
+        if i < len(pos) and args[: i + 1] == pos[: i + 1]:
+            return self.prov(rm, rf, pos[i], call, elems, depth + 1)
+        if star and outer is not None and rf.args.vararg is not None and dotted(star[0].value) == rf.args.vararg.arg and args.index(star[0]) == len(pos):
+            om, of, ocall = outer
+            extra = ocall.args[len(gparams):]
+            k = i - len(pos)
+            if 0 <= k < len(extra) and not isinstance(extra[k], ast.Starred):
+                return self.prov(om, of, extra[k], ocall, elems, depth + 1)
+        return {(FAIL, "constructor argument %d of the raise in %s could not be traced" % (i, rf.name))}
+
+
+def _handled(site, fn, classes):
+    c, p = site, getattr(site, "_parent", None)
+    fam = set(classes) | {"Exception", "BaseException"} | ({"LookupError"} if "KeyError" in classes else set())
+    while p is not None and c is not fn:
+        if isinstance(p, ast.Try) and any(c is b for b in p.body):
+            for h in p.handlers:
+                if h.type is None:
+                    return True
+                names = [dotted(x) for x in h.type.elts] if isinstance(h.type, ast.Tuple) else [dotted(h.type)]
+                if any((n or "").split(".")[-1] in fam for n in names):
+                    return True
+        c, p = p, getattr(p, "_parent", None)
+    return False
+
+
+def _key_elems(e):
+    if isinstance(e, ast.Tuple):
+        return [norm(x) for x in e.elts]
+    return [norm(e)]
+
+
+def _guard_before(stmt, fn, table, key_elems):
+    """a statement before `stmt` in its block is `if <key> not in TABLE: raise`, <key> naming the same elements"""
+    p = getattr(stmt, "_parent", None)
+    for field in ("body", "orelse"):
+        blk = getattr(p, field, None)
+        if isinstance(blk, list) and stmt in blk:
+            for prev in blk[: blk.index(stmt)]:
+                if isinstance(prev, ast.If) and isinstance(prev.test, ast.Compare) and len(prev.test.ops) == 1 and isinstance(prev.test.ops[0], ast.NotIn) and dotted(prev.test.comparators[0]) == table and any(isinstance(b, ast.Raise) for b in prev.body):
+                    left = prev.test.left
+                    if isinstance(left, ast.Name):
+                        ds = [a for a in ast.walk(fn) if isinstance(a, ast.Assign) and any(isinstance(t, ast.Name) and t.id == left.id for t in a.targets)]
+                        if len(ds) == 1:
+                            left = ds[0].value
+                    if _key_elems(left) == key_elems:
+                        return True
+    return False
+
+
+def _guarded(lk, site, m, fn, table):
+    stmt = site
+    while not isinstance(stmt, ast.stmt):
+        stmt = stmt._parent
+    ke = _key_elems(site.slice)
+    if _guard_before(stmt, fn, table, ke):
+        return "in the function itself"
+    # before every call of fn (keys must be expressions over state, not parameters)
+    if any(isinstance(x, ast.Name) and x.id in [a.arg for a in fn.args.args[1:]] for x in ast.walk(site.slice)):
+        return None
+    sites = lk.callers().get((m.name, fn.name), [])
+    if not sites:
+        return None
+    for cm, cf, call in sites:
+        cs = call
+        while not isinstance(cs, ast.stmt):
+            cs = cs._parent
+        if not _guard_before(cs, cf, table, ke):
+            return None
+    return "before every call (%s)" % ", ".join(sorted(set(cf.name for _, cf, _ in sites)))
 
 
 def rule_lookups(repo, res, sf, reach, exc):
-    pass
+    lk = Lookups(repo, reach)
+    ext = repo.ext
+    n_sites = 0
+    am, af = repo.func("decoder.assertions:assert_in_enum")
+    ok = False
+    for n in ast.walk(af):
+        if isinstance(n, ast.Try) and len(n.handlers) == 1 and dotted(n.handlers[0].type) == "ValueError":
+            call = [c for b in n.body for c in ast.walk(b) if isinstance(c, ast.Call)]
+            ok = len(call) == 1 and dotted(call[0].func) == af.args.args[1].arg and dotted(call[0].args[0]) == af.args.args[0].arg and any(isinstance(b, ast.Raise) and isinstance(b.exc, ast.Call) and dotted(b.exc.func) == af.args.args[2].arg for b in n.handlers[0].body)
+    res.check(ok, "C02.4", "assert_in_enum:rejects-non-members", "%s:assert_in_enum" % am.rel, "assert_in_enum must raise the given exception exactly when enum(value) raises ValueError", by="try: enum(value) except ValueError: raise exception_type(value)")
+    for (modn, fname), (m, fn) in sorted(lk.funcs.items()):
+        where = "%s:%s" % (m.rel, fname)
+        for n in ast.walk(fn):
+            kind = None
+            if isinstance(n, ast.Subscript) and isinstance(n.ctx, ast.Load) and dotted(n.value) and dotted(n.value).isupper() and len(dotted(n.value)) > 2:
+                kind, table, keyexpr = "table", dotted(n.value), n.slice
+            elif isinstance(n, ast.Call) and isinstance(n.func, ast.Name) and n.func.id in ext.enums and len(n.args) == 1 and not n.keywords:
+                tgt = repo.resolve(m.name, n.func.id)
+                if tgt is None or getattr(tgt, "kind", None) != "external":
+                    continue
+                kind, table, keyexpr = "enum", n.func.id, n.args[0]
+            if kind is None:
+                continue
+            n_sites += 1
+            key = "%s:%s" % (fname, short(n, 60))
+            raises = {"KeyError"} if kind == "table" else {"ValueError"}
+            if _handled(n, fn, raises):
+                res.ok("C02.4", key, where, by="handled: an enclosing try catches %s" % sorted(raises)[0])
+                continue
+            if kind == "table":
+                g = _guarded(lk, n, m, fn, table)
+                if g:
+                    res.ok("C02.4", key, where, by="guarded: `if key not in %s: raise` %s" % (table, g))
+                    continue
+            keys = lk.table_keys(m, table) if kind == "table" else set(ext.enums[table].values())
+            if keys is None:
+                res.bad("C02.4", key, where, "the key set of %s could not be determined statically" % table)
+                continue
+            atoms = lk.prov(m, fn, keyexpr, n)
+            bad, why = [], []
+            for a in sorted(atoms, key=str):
+                ok, w = _covered(lk, a, keys, table)
+                (why if ok else bad).append(w)
+            res.check(not bad and bool(atoms), "C02.4", key, where, "lookup `%s` can raise %s for some stream: %s" % (short(n, 60), sorted(raises)[0], "; ".join(bad) or "no provenance"), by="; ".join(sorted(set(why)))[:300])
+    res.info["lookup_sites"] = n_sites
+
+
+def _covered(lk, a, keys, table):
+    ext = lk.ext
+    kind = a[0]
+    if kind == "const":
+        return a[1] in keys, "constant key %r %s a key of %s" % (a[1], "is" if a[1] in keys else "is not", table)
+    if kind == "enum":
+        e = (a[1] or "").split(".")[-1]
+        if e not in ext.enums:
+            return False, "validated against %s, which is not a known enumeration" % a[1]
+        missing = sorted(set(ext.enums[e].values()) - keys)
+        return not missing, ("validated as a member of %s, and every %s value is a key of %s" % (e, e, table)) if not missing else "validated against %s, but %s has no entry for value(s) %s" % (e, table, missing)
+    if kind == "closed":
+        src, col = a[1], a[2]
+        rows = ext.lookups.get(src, {}).get("rows")
+        if rows is None:
+            return False, "row attribute %s.%s: source table not readable" % (src, col)
+        vals = set()
+        for idx, r in rows.items():
+            v = (r.get(col) or "").strip()
+            if not v.lstrip("-").isdigit():
+                return False, "column %s of %s holds non-integer %r" % (col, src, v)
+            vals.add(int(v))
+        missing = sorted(vals - keys)
+        return not missing, ("closed: every value of column %s of %s is a key of %s" % (col, src, table)) if not missing else "column %s of %s contains %s, not a key of %s" % (col, src, missing, table)
+    if kind == "lifts":
+        lf = ext.literal_tables.get("LIFTING_FILTERS")
+        used = set()
+        if lf is not None:
+            for c in ast.walk(lf):
+                if isinstance(c, ast.keyword) and c.arg == "lift_type":
+                    em = lk.enum_of_member(dotted(c.value))
+                    if em:
+                        used.add(em[1])
+                    elif isinstance(c.value, ast.Call) and dotted(c.value.func) == "LiftingFilterTypes" and len(c.value.args) == 1 and isinstance(c.value.args[0], ast.Constant):
+                        if c.value.args[0].value in set(lk.ext.enums.get("LiftingFilterTypes", {}).values()):
+                            used.add(c.value.args[0].value)
+                        else:
+                            used.add(("invalid", c.value.args[0].value))
+                if isinstance(c, ast.Call) and dotted(c.func) == "LiftingStage" and c.args:
+                    em = lk.enum_of_member(dotted(c.args[0]))
+                    if em:
+                        used.add(em[1])
+        missing = sorted(used - keys)
+        return bool(used) and not missing, ("closed: every lift_type used by LIFTING_FILTERS (%s) is a key of %s" % (sorted(used), table)) if used and not missing else "lift types %s of LIFTING_FILTERS are not keys of %s" % (missing or "<none found>", table)
+    return False, a[1] if len(a) > 1 else "unknown provenance"
